@@ -32,7 +32,6 @@ TRUSTED = ['NumPy slicing/broadcasting in Plane.multiply and util.boundary (mode
            'np.dot / einsum in fourier.dft2 compute the sums of products (Model/Fourier.lean; C01 checks dft2 itself)',
            'np.exp(1j*t) = cos t + i sin t']
 UNPROVEN = [
-            'that boundary_slice returns a slice covering the mask support is a hypothesis (Seg.covers); the hand model bboxSlice is tied by correspondence only',
             'partitions containing a segment (or producing an intermediate field) with exactly one element (known finding KF-C03-one-pixel-segment)',
             'propagation with fitted tilt or an output mask is outside this model (C04, C02)']
 ASSUMPTIONS = ['every segment bounding box and every intermediate field has more than one element',
